@@ -19,6 +19,9 @@ type c17Case struct {
 	Param  string `json:"param,omitempty"`
 	Shown  string `json:"shown,omitempty"`   // quoted input, for readers of samples
 	SafeIn bool   `json:"safe_in,omitempty"` // the input value carries the "safe" flag (Go code marked it)
+	// Wrap: the construct the filtered output stands in, inside the autoescape-off region
+	// ("" for with set macro if): where a filter is written does not change what it promises
+	Wrap string `json:"wrap,omitempty"`
 }
 
 var c17Filters = []string{"escape", "e", "escapejs", "urlencode", "iriencode", "addslashes", "striptags", "removetags", "safe"}
@@ -319,16 +322,33 @@ func checkC17(c any, r *Rec) error {
 	}
 	v, ferr := pongo2.ApplyFilter(f, inVal, param)
 	// the same through template syntax (autoescape off so we see the filter's own output)
-	src := "{% autoescape off %}{{ v|" + f
-	if f == "removetags" {
-		src += ":p"
+	name := "v"
+	if cs.Wrap != "" && cs.Wrap != "if" {
+		name = "w"
 	}
-	src += " }}{% endautoescape %}"
+	frag := "{{ " + name + "|" + f
+	if f == "removetags" {
+		frag += ":p"
+	}
+	frag += " }}"
+	switch cs.Wrap {
+	case "for":
+		frag = "{% for w in vs %}" + frag + "{% endfor %}"
+	case "with":
+		frag = "{% with w=v %}" + frag + "{% endwith %}"
+	case "set":
+		frag = "{% set w = v %}" + frag
+	case "macro":
+		frag = "{% macro m(w) %}" + frag + "{% endmacro %}{{ m(v) }}"
+	case "if":
+		frag = "{% if 1 %}" + frag + "{% endif %}"
+	}
+	src := "{% autoescape off %}" + frag + "{% endautoescape %}"
 	tpl, cerr := c17Set.FromString(src)
 	if cerr != nil {
 		return fmt.Errorf("template %q does not compile: %v", src, cerr)
 	}
-	tout, terr := tpl.Execute(pongo2.Context{"v": ctxV, "p": cs.Param})
+	tout, terr := tpl.Execute(pongo2.Context{"v": ctxV, "vs": []any{ctxV}, "p": cs.Param})
 	if (ferr == nil) != (terr == nil) {
 		return fmt.Errorf("%s on %q: ApplyFilter err=%v but template err=%v", f, in, ferr, terr)
 	}
@@ -467,10 +487,10 @@ func genC17Param(t *rapid.T) string {
 
 var _ = register(&propSpec{
 	ID:   "C17.filter",
-	Rule: "one of the 9 escaping filters applied (through ApplyFilter and through {{ v|f }}, which must agree) to strings mixing specials, entities, backslash sequences, tags, multi-byte/astral runes, control chars and invalid UTF-8; oracle per filter in both directions (forbidden characters absent AND an independent decoder/reference returns the input). Non-trivial: input contains a character of the filter's special set or invalid UTF-8; distinct by (filter, param, input).",
+	Rule: "one of the 9 escaping filters applied (through ApplyFilter and through {{ v|f }} inside an autoescape-off region - directly or inside a for, with, set, macro or if written there -, which must agree) to strings mixing specials, entities, backslash sequences, tags, multi-byte/astral runes, control chars and invalid UTF-8; oracle per filter in both directions (forbidden characters absent AND an independent decoder/reference returns the input). Non-trivial: input contains a character of the filter's special set or invalid UTF-8; distinct by (filter, param, input).",
 	Gen: func(t *rapid.T) any {
 		f := pick(t, "filter", c17Filters)
-		cs := &c17Case{Filter: f, Input: genC17Input(t), SafeIn: drawInt(t, 0, 4, "safein") == 0}
+		cs := &c17Case{Filter: f, Input: genC17Input(t), SafeIn: drawInt(t, 0, 4, "safein") == 0, Wrap: pick(t, "wrap", []string{"", "", "", "for", "with", "set", "macro", "if"})}
 		if f == "removetags" {
 			cs.Param = genC17Param(t)
 		}
